@@ -1,5 +1,149 @@
-(* Eval08.v — evaluation of C08 observations (stub: replaced when C08 is built). *)
-From Verif Require Import Base Sexp.
+(* Eval08.v — evaluation of C08 observations.
+   (ops ...)          operation sequences on one real typesMap, replayed many times: the list of
+                      DISTINCT answer traces observed; the property wants exactly one, the model
+                      (registration-order nameOf) predicts which.
+   (sortplugins ...)  sortPlugins on one ordering of a set of distinct prefixes.
+   (imports ...)      the import block printer.WriteTo emits for a table of (alias, path).
+   (runs ...)         number of distinct sha256 of derived.gen.go over repeated runs / invocation
+                      variants of one package. *)
+From Verif Require Import Base Sexp Gen.TypesMap Gen.TmEval Gen.Determinism.
 Open Scope string_scope.
 
-Definition eval08 (e : sexp) : verdict := bad_line.
+Definition parse_op (e : sexp) : option (op nat) :=
+  match e with
+  | L [Sym "set"; Sym n; Num t] => Some (OSet n (Z.to_nat t))
+  | L [Sym "get"; Num t] => Some (OGet (Z.to_nat t))
+  | L [Sym "gen"; Num t] => Some (OGenerating (Z.to_nat t))
+  | L [Sym "togen"] => Some OToGenerate
+  | L [Sym "done"] => Some ODone
+  | _ => None
+  end.
+
+Definition ans_sexp (a : ans nat) : sexp :=
+  match a with
+  | ASet (SOk n) => L [Sym "ok"; Sym n]
+  | ASet (SDup h w) => L [Sym "err"; Sym "dup"; Sym h; Sym w]
+  | ASet (SConflict n) => L [Sym "err"; Sym "conflict"; Sym n]
+  | ASet SFuel => L [Sym "fuel"]
+  | AGet (Some n) => L [Sym "name"; Sym n]
+  | AGet None => L [Sym "fuel"]
+  | AGenerating true => L [Sym "ok"]
+  | AGenerating false => L [Sym "panic"]
+  | AToGenerate l => L (map of_nat l)
+  | ADone b => of_bool b
+  end.
+
+(* an error message the harness could not classify matches any model error *)
+Fixpoint trace_match (m real : list sexp) : bool :=
+  match m, real with
+  | [], [] => true
+  | x :: m', y :: r' =>
+      (sexp_eqb x y ||
+       match x, y with
+       | L (Sym "err" :: _), L [Sym "err"; Sym "unknown"] => true
+       | _, _ => false
+       end) && trace_match m' r'
+  | _, _ => false
+  end.
+
+(* does some look-up of this operation see more than one matching entry?  (the inputs on which
+   the pinned nameOf was nondeterministic) *)
+Definition nmatch (c : ctx) (t : list (name * nat)) (q : nat) : nat :=
+  List.length (filter (fun e => teq_of c q (snd e)) t).
+Definition multi (c : ctx) (s : tm nat) (x : op nat) : bool :=
+  match x with
+  | OSet _ q | OGet q | OGenerating q => Nat.ltb 1 (nmatch c (tbl s) q)
+  | OToGenerate | ODone => existsb (fun q => Nat.ltb 1 (nmatch c (tbl s) q)) (map snd (tbl s))
+  end.
+
+Fixpoint any_multi (c : ctx) (s : tm nat) (ops : list (op nat)) : bool :=
+  match ops with
+  | [] => false
+  | x :: r =>
+      multi c s x ||
+      any_multi c (fst (step nat (teq_of c) (hint_of c) in_order s x)) r
+  end.
+
+Definition eval_ops (ce fl opse reals : sexp) : verdict :=
+  match parse_ctx ce, fl, opse, reals with
+  | Some c, L [Sym "flags"; fa; fd], L ol, L (Sym "answers" :: traces) =>
+      match get_bool fa, get_bool fd, map_opt parse_op ol, map_opt get_list traces with
+      | Some a, Some d, Some ops, Some trs =>
+          let s0 := init (nth 0 (c_prefixes c) "") (c_reserved c) a d in
+          let m := map ans_sexp (snd (run nat (teq_of c) (hint_of c) in_order s0 ops)) in
+          {| v_known := true;
+             v_model_ok := forallb (trace_match m) trs && negb (Nat.eqb (List.length trs) 0);
+             v_spec_ok := Nat.eqb (List.length trs) 1;
+             v_guard := true;
+             v_model := L m;
+             v_tag := "ops/" ++ (if any_multi c s0 ops then "multi-match" else "unique-match") ++
+                      (if teq_is_identity c then "/identity" else "/assignable") ++
+                      (if a then "/autoname" else "") ++ (if d then "/dedup" else "") |}
+      | _, _, _, _ => bad_line
+      end
+  | _, _, _, _ => bad_line
+  end.
+
+Fixpoint sortedb (less : string -> string -> bool) (l : list string) : bool :=
+  match l with
+  | [] => true
+  | x :: r => forallb (fun y => negb (less y x)) r && sortedb less r
+  end.
+
+Definition syms_sexp (l : list string) : sexp := L (map Sym l).
+Fixpoint list_eqb (a b : list string) : bool :=
+  match a, b with
+  | [], [] => true
+  | x :: a', y :: b' => String.eqb x y && list_eqb a' b'
+  | _, _ => false
+  end.
+
+Definition eval_sortplugins (ie re : sexp) : verdict :=
+  match get_syms ie, get_syms re with
+  | Some input, Some real =>
+      let m := isort less input in
+      {| v_known := true;
+         v_model_ok := list_eqb m real;
+         v_spec_ok := sortedb less real && list_eqb (isort sless real) (isort sless input);
+         v_guard := nodupb String.eqb input;
+         v_model := syms_sexp m;
+         v_tag := "sortplugins/" ++ (if list_eqb input m then "already-sorted" else "shuffled") |}
+  | _, _ => bad_line
+  end.
+
+Definition parse_pair (e : sexp) : option (string * string) :=
+  match e with L [Sym a; Sym p] => Some (a, p) | _ => None end.
+Definition line_sexp (l : string * string) : sexp :=
+  match l with
+  | ("", p) => L [Sym p]
+  | (a, p) => L [Sym a; Sym p]
+  end.
+
+Definition eval_imports (ie re : sexp) : verdict :=
+  match ie, re with
+  | L il, L rl =>
+      match map_opt parse_pair il with
+      | Some im =>
+          let m := L (map line_sexp (write_to (isort sless) im)) in
+          {| v_known := true;
+             v_model_ok := sexp_eqb m re;
+             v_spec_ok := sexp_eqb m re;   (* sorted by path, one line per pair: the model IS the specification here *)
+             v_guard := nodupb String.eqb (map snd im) && nodupb String.eqb (map fst im);
+             v_model := m;
+             v_tag := "imports/" ++ len_code (List.length im) ++
+                      (if existsb (fun '(a, p) => String.eqb a p) im then "/plain" else "/aliased") |}
+      | None => bad_line
+      end
+  | _, _ => bad_line
+  end.
+
+Definition eval08 (e : sexp) : verdict :=
+  match e with
+  | L [Sym "ops"; ce; fl; ops; reals] => eval_ops ce fl ops reals
+  | L [Sym "sortplugins"; ie; re] => eval_sortplugins ie re
+  | L [Sym "imports"; ie; re] => eval_imports ie re
+  | L [Sym "runs"; Sym cls; Num n; Num distinct] =>
+      {| v_known := true; v_model_ok := Z.eqb distinct 1; v_spec_ok := Z.eqb distinct 1;
+         v_guard := true; v_model := Num 1; v_tag := "runs/" ++ cls |}
+  | _ => bad_line
+  end.
